@@ -167,6 +167,9 @@ func (r *AvPacket2RtmpRemuxer) FeedAvPacket(pkt base.AvPacket) {
 		pos := 5
 		maxLength := len(pkt.Payload) + pos + len(nals)
 		payload := make([]byte, maxLength)
+		// key frame if any nal is an IDR/IRAP slice: the last nal of a key frame may be a
+		// suffix SEI, filler data or an end-of-sequence nal
+		hasKeyNal := false
 
 		for _, nal := range nals {
 			if pkt.PayloadType == base.AvPacketPtAvc {
@@ -211,6 +214,9 @@ func (r *AvPacket2RtmpRemuxer) FeedAvPacket(pkt base.AvPacket) {
 						//		payload = make([]byte, maxLength)
 						//	}
 						//}
+						hasKeyNal = true
+					}
+					if hasKeyNal {
 						payload[0] = base.RtmpAvcKeyFrame
 					} else {
 						payload[0] = base.RtmpAvcInterFrame
@@ -260,6 +266,9 @@ func (r *AvPacket2RtmpRemuxer) FeedAvPacket(pkt base.AvPacket) {
 						//		payload = make([]byte, maxLength)
 						//	}
 						//}
+						hasKeyNal = true
+					}
+					if hasKeyNal {
 						payload[0] = base.RtmpHevcKeyFrame
 					} else {
 						payload[0] = base.RtmpHevcInterFrame
